@@ -68,6 +68,7 @@ class SimNet:
         self.s_drop = choices.stream("net.drop")
         self.s_dup = choices.stream("net.dup")
         self.s_delay = choices.stream("net.delay")
+        self.s_err = choices.stream("net.senderr")
         self.who: Callable[[], str] = lambda: "?"
         self.on_schedule: Optional[Callable[[int], None]] = None   # World T / stepper wake hook
         self._eph = 40000
@@ -116,7 +117,9 @@ class SimNet:
         return False
 
     # -- sending -----------------------------------------------------------------------------------
-    def send(self, src: Tuple[str, int], dst: Tuple[str, int], data: bytes) -> None:
+    def send(self, src: Tuple[str, int], dst: Tuple[str, int], data: bytes, may_fail: bool = False) -> List[str]:
+        """may_fail: the sender is an asyncio transport, whose sendto() can fail with an OSError that asyncio reports through
+        protocol.error_received() (fate "send_error": nothing leaves, the record stays in the history)."""
         now = self.clock.peek()
         if dst[0] == BROADCAST:
             targets = sorted(a for a in self.endpoints if a[1] == dst[1] and a != src)
@@ -124,18 +127,24 @@ class SimNet:
             targets = [(dst[0], dst[1])]
         verb = verb_of(data)
         direction = "c2s" if dst[1] == SPA_PORT else "s2c"
+        fates = []
         for target in targets:
             self._n += 1
             rec = NetRecord(self._n, now, src, target, data, verb, self.who(), direction)
             self.history.append(rec)
-            self._send_one(rec, now)
+            self._send_one(rec, now, may_fail)
+            fates.append(rec.fate)
+        return fates
 
-    def _send_one(self, rec: NetRecord, now: float) -> None:
+    def _send_one(self, rec: NetRecord, now: float, may_fail: bool = False) -> None:
         cfg = self.cfg
         res = self.result
         direction = rec.dir
         fate = "ok"
-        if not self.healed and self._in_blackout(now, direction):
+        if may_fail and not self.healed and cfg.get("send_error_p", 0.0) and self.s_err.chance(cfg["send_error_p"]):
+            fate = "send_error"
+            res.fault("send_error")
+        elif not self.healed and self._in_blackout(now, direction):
             fate = "blackout"
             res.fault("blackout_drop")
         elif not self.healed and self._rule_hit(rec.verb, direction, rec.data):
@@ -247,7 +256,10 @@ class SimTransport:
         if addr is None:
             raise ValueError("SimTransport.sendto needs an address")
         self.sent += 1
-        self._net.send(self.local, (addr[0], addr[1]), bytes(data))
+        fates = self._net.send(self.local, (addr[0], addr[1]), bytes(data), may_fail=True)
+        if "send_error" in fates:
+            # as asyncio's selector transport does when the socket's sendto() raises OSError (e.g. ENETUNREACH)
+            self._protocol.error_received(OSError(101, "Network is unreachable"))
 
     def close(self):
         self.close_called += 1
